@@ -141,6 +141,9 @@ type actor struct {
 }
 
 type env struct {
+	registrar  []byte // helper contract that re-enters NNS from its payment callback (nil if not deployed)
+	registrarH util.Uint160
+
 	b      *runner.Batch
 	w      *world.World
 	nns    util.Uint160
@@ -183,6 +186,14 @@ func newEnv(b *runner.Batch, n int, tlds []string) (*env, error) {
 			return nil, err
 		}
 		e.holder = hd.Hash.BytesBE()
+	}
+	if h := b.Helpers["registrar"]; h != nil {
+		hd, err := w.Deploy("registrar", h, nil)
+		if err != nil {
+			return nil, err
+		}
+		e.registrar = hd.Hash.BytesBE()
+		e.registrarH = hd.Hash
 	}
 	b.HistoryFn = func() []any {
 		var res []any
@@ -254,6 +265,8 @@ type opResult struct {
 type nnsOp struct {
 	method string
 	args   []any
+	// target: the contract to invoke when it is not NNS itself (a helper that calls NNS)
+	target *util.Uint160
 	// predict returns the expected outcome class and, for "ok", the model mutation and expected events.
 	predict func(now int64, w wits) (string, string, func(), []string)
 	desc    string
@@ -296,7 +309,11 @@ func (e *env) exec(o *nnsOp, signers []world.SignerSpec, w wits) *opResult {
 	b := e.b
 	now := int64(e.w.Now)
 	expect, reason, apply, events := o.predict(now, w)
-	r := e.w.Invoke(signers, e.nns, o.method, o.args...)
+	callee := e.nns
+	if o.target != nil {
+		callee = *o.target
+	}
+	r := e.w.Invoke(signers, callee, o.method, o.args...)
 	b.Tx(1)
 	if uint64(now) != r.TS && r.Rejected == "" {
 		b.Inconclusive(fmt.Sprintf("block timestamp %d differs from the planned virtual time %d", r.TS, now))
@@ -308,7 +325,7 @@ func (e *env) exec(o *nnsOp, signers []world.SignerSpec, w wits) *opResult {
 	got := "fail"
 	if r.Halted() {
 		got = "ok"
-		if o.method == "register" || o.method == "transfer" {
+		if o.method == "register" || o.method == "transfer" || o.method == "buy" {
 			if len(r.Stack) == 1 && !world.Bool(r.Stack[0]) {
 				got = "false"
 			}
@@ -327,7 +344,8 @@ func (e *env) exec(o *nnsOp, signers []world.SignerSpec, w wits) *opResult {
 			}
 		}
 	default:
-		if !r.Diff.Empty() || len(e.nnsEvents(r)) > 0 {
+		// (the NNS contract's own storage: a helper contract that made the call may have written its own)
+		if len(r.Diff[e.nnsID]) > 0 || (o.target == nil && !r.Diff.Empty()) || len(e.nnsEvents(r)) > 0 {
 			b.Violation(fmt.Sprintf("nns.%s %s: refused call changed state or notified", o.method, o.desc), det())
 		}
 	}
@@ -386,6 +404,32 @@ func (e *env) opRegister(name string, owner []byte, expireSec int64) *nnsOp {
 				m.recs[rkey(name, name, tSOA)] = []string{fmt.Sprintf("%s ops@x.io %d 3600 600 %d 3600", name, now, expireSec)}
 				m.serial[name] = now
 			}, []string{evTransfer(oldOwner, owner, name)}
+		}}
+}
+
+// opBuy: the registrar contract registers the name for itself and, from inside its NEP-11 payment callback
+// (i.e. while register is still running), transfers it to the buyer. Predicted as a registration witnessed
+// by the registrar followed by a transfer witnessed by the registrar.
+func (e *env) opBuy(name string, buyer []byte, expireSec int64) *nnsOp {
+	reg := e.opRegister(name, e.registrar, expireSec)
+	return &nnsOp{method: "buy", target: &e.registrarH, desc: fmt.Sprintf("%s through the registrar for %x…", name, buyer[:min(4, len(buyer))]),
+		args: []any{e.nns, name, buyer, expireSec},
+		predict: func(now int64, _ wits) (string, string, func(), []string) {
+			w := wits{accounts: map[string]bool{hex.EncodeToString(e.registrar): true}, desc: "registrar"}
+			exp, reason, apply, evs := reg.predict(now, w)
+			if exp != "ok" {
+				return exp, reason, apply, evs
+			}
+			if len(buyer) != 20 {
+				return "ok", reason + "+kept", apply, evs
+			}
+			return "ok", reason + "+forwarded", func() {
+				apply()
+				_, _, apply2, _ := e.opTransfer(buyer, name).predict(now, w)
+				if apply2 != nil {
+					apply2()
+				}
+			}, append(append([]string{}, evs...), evTransfer(e.registrar, buyer, name))
 		}}
 }
 
